@@ -21,6 +21,7 @@ CONF = {
     "signature": sig,
     "selftest_keys": ("obs", "est"),
     "assumptions": [
+        "the projection reads the default-period view of two aggregation types (p95 and avg; avg is reported for fewer periods than p95)",
         "histories are the ones the scheduler and the informers deliver: reserve only of a pending pod, roll-back or binding afterwards, "
         "updates of an existing object (spec incl. in-place resize, spec.priority, conditions, node change, termination, resync), delete last; "
         "a pod's metadata that feeds the estimate (priority-class label, custom estimation annotations, owner) does not change during its life",
